@@ -28,6 +28,6 @@ FILE *file_open(const char *open_type, const char *fmt, ...);
  */
 static inline void file_write_chunk(FILE *f, const void *data, size_t data_size)
 {
-	if(unlikely(fwrite(data, data_size, 1, f) != 1 && data_size))
+	if(unlikely(data_size && fwrite(data, data_size, 1, f) != 1))
 		logger(LOG_ERROR, "Error during disk write!");
 }
